@@ -61,7 +61,9 @@ def run(res, tier, seed):
     # them back) | dropped (one record with an out-of-range number is removed by the sanitising)
     plans = [("gac_klm", "noaa16", 120, "clean"), ("gac_pod", "noaa10", 120, "clean"), ("lac_klm", "noaa18", 40, "clean"),
              ("lac_pod", "noaa9", 40, "clean"), ("gac_pod", "noaa12", 60, "wrapped"), ("gac_klm", "noaa17", 60, "dropped"),
-             ("gac_pod", "noaa7", 60, "dropped")]
+             ("gac_pod", "noaa7", 60, "dropped"),
+             # POD with the clock-drift correction switched on (real table, TLE): neighbours of flagged lines must stay valid
+             ("gac_pod", "noaa14", 60, "clean-drift"), ("lac_pod", "noaa14", 40, "clean-drift")]
     if tier == "thorough":
         plans = [(f, s, n * 6, k) for f, s, n, k in plans] + [("gac_klm", "metopa", 600, "clean"), ("gac_pod", "noaa14", 600, "clean"),
                                                              ("lac_pod", "noaa11", 90, "wrapped"), ("lac_klm", "metopc", 90, "dropped")]
@@ -70,7 +72,7 @@ def run(res, tier, seed):
         tle_dir, tle_name = impl.make_tle_dir(d)
         for fmt, sc, n, pattern in plans:
             fam = l1b.FMT[fmt]["family"]
-            start = datetime.datetime(2001 if fam == "klm" else 1990, 3, 4, 10, 0, 0)
+            start = datetime.datetime(2001 if (fam == "klm" or pattern == "clean-drift") else 1990, 3, 4, 10, 0, 0)
             first = rng.choice([1, 1, 7, 300])
             qs = quality_words(rng, fam, n, tier)
             w = l1b.FMT[fmt]["width"]
@@ -89,7 +91,7 @@ def run(res, tier, seed):
             keep = sum(1 << b for b in MASKBITS[fam])
             lines2 = l1b.default_lines(fmt, n, start, counts=wb, qual=[q & keep for q in qs], switch=sws, numbers=numbers)
             data2 = l1b.build_file(fmt, sc, start, lines2)
-            kw = dict(tle_dir=tle_dir, tle_name=tle_name, adjust_clock_drift=False)
+            kw = dict(tle_dir=tle_dir, tle_name=tle_name, adjust_clock_drift=(pattern == "clean-drift"), tle_thresh=40000)
             try:
                 r = impl.open_reader(fmt, data, **kw)
                 r2 = impl.open_reader(fmt, data2, **kw)
